@@ -7,7 +7,7 @@ META = {
                  "and wrapping; leaves are abstract canvases yielding row descriptors; all column quantities (leaf widths, pads, trims, overlay offsets, the probed column) are "
                  "symbolic and unbounded, row quantities 1..3 (rows are enumerated by content())",
     },
-    "outside": ["TextCanvas leaves with wide characters under trims (the byte-level trimming is C11's calc_trim_text)", "content_delta", "pop-up coordinates", "trees deeper than 3"],
+    "outside": ["TextCanvas leaves with symbolic text (concrete rows with wide characters and solver-chosen run boundaries, trims and offsets are covered by the textleaf instances)", "zero-width characters in leaves", "content_delta", "pop-up coordinates", "trees deeper than 3"],
     "stubs": ["canvas.blank_canvas -> abstract blank leaf (the real one materialises b''.rjust(cols))", "ALeafCanvas (abstract leaf whose content() yields (leaf, x0, y, width, attr map) descriptors)"],
     "assumptions": ["operations are applied where they are defined (trims smaller than the canvas, overlay inside the bottom canvas, join widths >= canvas widths)"],
 }
@@ -31,7 +31,15 @@ def instances(tier):
         out.append(Instance("algebra.%s" % name, "h_algebra", {"tree": tree}, timeout=900 if tier == "quick" else 3600))
     for name, tree in TREES_Q[:8]:
         out.append(Instance("final.%s" % name, "h_final", {"tree": tree}, timeout=300))
+    for ti in range(len(TEXTS)):
+        for op in ("padtrim", "overlay", "content"):
+            out.append(Instance("textleaf.%s.t%d" % (op, ti), "h_textleaf", {"ti": ti, "op": op, "span": 2 if tier == "quick" else 3}, timeout=900))
     return out
+
+
+# real TextCanvas leaves: concrete rows with double-width characters, solver-chosen attribute / charset run boundaries, trims, pads and overlay offsets
+TEXTS = ["x\u4e2dyz", "\u4e2d\u4e2d", "a\u4e2d", "\u4e2db", "ab\uff21c", "\u4e2da\u4e2d"]
+CONT = ""
 
 
 def _mk_leafclass():
@@ -248,3 +256,104 @@ def h_final(I, tree):
             I.check("finalized_rejects_" + nm, False)
         except cv.CanvasError:
             I.check("finalized_rejects_" + nm, True)
+
+
+def _cells_expected(text, attr_at, cs_at, widths):
+    row = []
+    pos = 0
+    for ch, w in zip(text, widths):
+        n = len(ch.encode("utf-8"))
+        row.append((ch, attr_at(pos), cs_at(pos)))
+        if w == 2:
+            row.append((CONT, attr_at(pos), cs_at(pos)))
+        pos += n
+    return row
+
+
+def _grid_fix(row, wide):
+    row = list(row)
+    if row and row[0][0] == CONT:
+        row[0] = (" ", row[0][1], None)
+    if row and row[-1][0] in wide:
+        row[-1] = (" ", row[-1][1], None)
+    return row
+
+
+def _cells_actual(rowsegs, wide):
+    cells = []
+    for a, cs, bs in rowsegs:
+        for ch in bytes(bs).decode("utf-8"):
+            cells.append((ch, a, cs))
+            if ch in wide:
+                cells.append((CONT, a, cs))
+    return cells
+
+
+def h_textleaf(I, ti, op, span):
+    """A real TextCanvas row under pad/trim, overlay and content(trim_left, cols): cell-for-cell equal to the grid, halves become spaces."""
+    import urwid
+    from urwid import canvas as cv
+    from urwid import str_util
+
+    urwid.set_encoding("utf-8")
+    text = TEXTS[ti]
+    widths = [str_util.get_char_width(c) for c in text]
+    wide = {c for c, w in zip(text, widths) if w == 2}
+    raw = text.encode("utf-8")
+    nb = len(raw)
+    ncols = sum(widths)
+    # run-length attribute and charset lists with solver-chosen boundaries (byte offsets)
+    offs = [0]
+    for ch in text:
+        offs.append(offs[-1] + len(ch.encode("utf-8")))
+    # run boundaries fall between characters (a run never splits a character's bytes)
+    k1 = int(I.int("attr_boundary1", 0, len(text)))
+    k2 = int(I.int("attr_boundary2", 0, len(text)))
+    I.assume(k1 <= k2)
+    n1, n2 = offs[k1], offs[k2] - offs[k1]
+    attr = [(a, n) for a, n in (("a", n1), ("b", n2), ("c", nb - n1 - n2)) if n]
+    m1 = offs[int(I.int("cs_boundary", 0, len(text)))] if bool(I.bool("has_cs")) else nb
+    cs = [(c, n) for c, n in ((None, m1), ("0", nb - m1)) if n]
+
+    def attr_at(p):
+        return "a" if p < n1 else ("b" if p < n1 + n2 else "c")
+
+    def cs_at(p):
+        return None if p < m1 else "0"
+
+    base = _cells_expected(text, attr_at, cs_at, widths)
+    tc = cv.TextCanvas([raw], [attr], [cs])
+    blank = (" ", None, None)
+    if op == "padtrim":
+        l = I.int("left", -ncols, span)
+        r = I.int("right", -ncols, span)
+        I.assume(And(l > -ncols, r > -ncols, ncols + l + r >= 1, Or(l >= 0, r >= 0, -l - r < ncols)))
+        cc = cv.CompositeCanvas(tc)
+        cc.pad_trim_left_right(l, r)
+        rows = [list(x) for x in cc.content()]
+        lv, rv = int(l), int(r)
+        cut = base[max(0, -lv): len(base) - max(0, -rv)]
+        exp = [blank] * max(0, lv) + _grid_fix(cut, wide) + [blank] * max(0, rv)
+        I.check("cols", cc.cols() == len(exp))
+    elif op == "overlay":
+        tw = I.int("top_width", 1, ncols)
+        left = I.int("ovl_left", 0, ncols)
+        I.assume(left + tw <= ncols)
+        top = cv.CompositeCanvas(cv.SolidCanvas("#", int(tw), 1))
+        cc = cv.CanvasOverlay(top, cv.CompositeCanvas(tc), left, 0)
+        rows = [list(x) for x in cc.content()]
+        lv, twv = int(left), int(tw)
+        exp = _grid_fix(base[:lv], wide) + [("#", None, None)] * twv + _grid_fix(base[lv + twv:], wide)
+        I.check("cols", cc.cols() == ncols)
+    else:
+        tl = I.int("trim_left", 0, ncols - 1)
+        cols = I.int("cols", 1, ncols)
+        I.assume(tl + cols <= ncols)
+        rows = [list(x) for x in tc.content(tl, 0, cols, 1)]
+        tlv, cv_ = int(tl), int(cols)
+        exp = _grid_fix(base[tlv: tlv + cv_], wide)
+    I.check("one_row", len(rows) == 1)
+    got = _cells_actual(rows[0], wide)
+    I.note("cells", {"text": text, "attr": attr, "cs": cs, "got": [list(map(str, c)) for c in got], "expected": [list(map(str, c)) for c in exp]})
+    I.check("cells_equal_grid", got == exp)
+    I.check("no_empty_runs", all(len(bytes(seg[2])) > 0 for seg in rows[0]))
